@@ -221,6 +221,14 @@ def run_unit(unit, work, tier='quick'):
             rc, out, err, _ = sh(['goto-instrument', '--unwindset', us, '--unwinding-assertions', os.path.join(d, 'a.gb'), os.path.join(d, 'a.gb')], log=log, timeout=120)
             if rc != 0:
                 raise Undecided('goto-instrument --unwindset failed: ' + (err or out)[-600:])
+        if 'bounded_partial' in unit:
+            # bounded stand-in for functions DFCC cannot finish with loop contracts: every loop cut after N-1 iterations
+            rc, out, err, _ = sh(['goto-instrument', '--unwind', str(unit['bounded_partial']), '--partial-loops', '--no-unwinding-assertions',
+                                  os.path.join(d, 'a.gb'), os.path.join(d, 'a.gb')], log=log, timeout=300)
+            if rc != 0:
+                raise Undecided('goto-instrument --unwind failed: ' + (err or out)[-600:])
+            res['bounded'] = 'BOUNDED: every loop cut after %d iteration(s) (partial loops); only obligations matching %r are considered' % (unit['bounded_partial'] - 1, unit.get('only', '.*'))
+            nocontract = []
         gi = ['goto-instrument', '--no-malloc-may-fail', '--dfcc', harness]
         gi += ['--enforce-contract-rec' if unit.get('rec') else '--enforce-contract',
                '%s/%s__contract' % (unit['enforce'], unit['enforce'])]
@@ -284,6 +292,9 @@ def parse_cbmc(out, res, unit):
         raise Undecided('no result from cbmc: ' + alltext[-800:])
     res['obligations'] = len(results)
     exp_fail = [re.compile(x) for x in unit.get('expect_fail', [])]
+    only = re.compile(unit['only']) if unit.get('only') else None
+    if only is not None:
+        results = [r for r in results if only.search(r.get('property', '') + ' ' + r.get('description', '')) or any(p.search(r.get('description', '')) for p in exp_fail)]
     fails = []
     reach_hit = set()
     ok = 0
